@@ -165,6 +165,90 @@ def same_extremes_cases(rng, n):
     return out
 
 
+def nd_batch_cases(run, rng, n):
+    """chunked = eager for value arrays with a leading (kept) batch axis and labels of 1-3 dims over MANY blocks: cohorts that span more
+    blocks than split_every along the grouped axis while the batch axis has one block; 3-D block grids whose cohorts select
+    non-contiguous blocks on two axes; every method; compared with the in-memory call and the per-group NumPy result"""
+    import warnings
+
+    import dask
+    import dask.array as da
+    import numpy as np
+
+    import flox
+
+    desc = None
+    for _ in range(n):
+        nlab = rng.choice([1, 1, 2, 3, 3])
+        batch = rng.choice([0, 1, 1])
+        if nlab == 1:
+            nblocks = rng.choice([5, 6, 8, 12, 17, 18, 19, 20])
+            csz = rng.randint(1, 3)
+            lshape = (nblocks * csz,)
+            lchunks = ((csz,) * nblocks,)
+        else:
+            grid = tuple(rng.randint(1, 3) for _ in range(nlab))
+            lchunks = tuple(tuple(rng.randint(1, 2) for _ in range(g)) for g in grid)
+            lshape = tuple(sum(c) for c in lchunks)
+        pat = rng.choice(["block-alternating", "random", "product"])
+        if pat == "product" and nlab == 3:
+            # 3 blocks on the outer label axes: group 0 keeps blocks {0, 2} x all x {0, 2}
+            lchunks = (tuple(rng.randint(1, 2) for _ in range(3)), tuple(rng.randint(1, 2) for _ in range(rng.randint(1, 2))), tuple(rng.randint(1, 2) for _ in range(3)))
+            lshape = tuple(sum(c) for c in lchunks)
+        labels = np.zeros(lshape, dtype=int)
+        if pat == "random":
+            labels = np.array([rng.randrange(3) for _ in range(int(np.prod(lshape)))]).reshape(lshape)
+        elif pat == "block-alternating":
+            bounds = [np.cumsum((0,) + c) for c in lchunks]
+            for bi, idx in enumerate(np.ndindex(*[len(c) for c in lchunks])):
+                sl = tuple(slice(bounds[d][i], bounds[d][i + 1]) for d, i in enumerate(idx))
+                labels[sl] = sum(idx) % 2
+        else:
+            # group 1 fills whole slabs of blocks on the first and last label axes: group 0 is left with a non-contiguous product of blocks
+            for ax in {0, nlab - 1}:
+                bounds = np.cumsum((0,) + lchunks[ax])
+                for i in range(len(lchunks[ax])):
+                    if i % 2 == 1:
+                        sl = [slice(None)] * nlab
+                        sl[ax] = slice(bounds[i], bounds[i + 1])
+                        labels[tuple(sl)] = 1
+        bshape = (rng.randint(2, 3),) if batch else ()
+        vals = np.array([rng.randint(-4, 4) for _ in range(int(np.prod(bshape + lshape)))], dtype=float).reshape(bshape + lshape)
+        bchunks = ((bshape[0],) if rng.random() < 0.6 else (1,) * bshape[0],) if batch else ()
+        func = rng.choice(["sum", "nanmax", "count", "mean", "min"])
+        split_every = rng.choice([None, 2, 3])
+        desc = {"func": func, "vals_shape": list(vals.shape), "chunks": [list(c) for c in bchunks + lchunks], "labels": labels.tolist(), "vals": vals.tolist(),
+                "pattern": pat, "split_every": split_every}
+        with warnings.catch_warnings():
+            warnings.simplefilter("ignore")
+            eager = np.asarray(flox.groupby_reduce(vals, labels, func=func)[0], dtype=float)
+            ids = np.unique(labels)
+            fl = labels.reshape(-1)
+            ref1 = lambda v2: np.array([{"sum": np.sum, "nanmax": np.max, "count": len, "mean": np.mean, "min": np.min}[func](v2.reshape(-1)[fl == g]) for g in ids], dtype=float)  # noqa: E731
+            ref = np.stack([ref1(v2) for v2 in vals]) if batch else ref1(vals)
+            for method in (None, "map-reduce", "cohorts"):
+                cfg = {"scheduler": "sync"}
+                if split_every:
+                    cfg["split_every"] = split_every
+                try:
+                    with dask.config.set(**cfg):
+                        r, _ = flox.groupby_reduce(da.from_array(vals, chunks=bchunks + lchunks), labels, func=func, method=method)
+                        got = np.asarray(r.compute(), dtype=float)
+                except (ValueError, NotImplementedError):
+                    run.extra["refused_cases"] = run.extra.get("refused_cases", 0) + 1
+                    continue
+                except Exception as e:  # noqa: BLE001
+                    run.violation(dict(desc, property="C02", kind=f"chunked evaluation raised an internal error {type(e).__name__}: {str(e)[:120]}", method=method), tag="ndb")
+                    break
+                run.count("ndb|" + str(method) + "|" + str(desc), True)
+                if got.shape != eager.shape or not np.allclose(got, eager, equal_nan=True) or not np.allclose(got, ref, equal_nan=True):
+                    run.violation(dict(desc, property="C02", kind="chunked result differs from the in-memory result / the per-group NumPy result", method=method,
+                                       chunked=got.tolist(), in_memory=eager.tolist(), numpy=ref.tolist()), tag="ndb")
+                    break
+    if desc:
+        run.sample({"nd_batch_case": {k: v for k, v in desc.items() if k not in ("labels", "vals")}})
+
+
 def nontrivial(case):
     sizes = case["chunks"][0]
     if len(sizes) < 2:
@@ -196,6 +280,7 @@ def run(run: C.Run):
     R.check_reduce_cases(run, same_extremes_cases(rng, 1500 if thorough else 300), "C02", nontrivial, grouped_fn=grouped_fn, vs_eager=True)
     # large inputs: eager / NumPy oracle only (not sent to the Coq model)
     R.check_reduce_cases(run, big_cases(rng, 250 if thorough else 40), "C02", nontrivial, grouped_fn=grouped_fn, vs_eager=True, model=False)
+    nd_batch_cases(run, rng, 1500 if thorough else 250)
     if not proofs_ok and not run.violations:
         run.violation({"property": "C02", "kind": "proof obligation no longer checks",
                        "failed": P.failed_obligations(run), "searched": run.cov["evaluations"]},
@@ -205,7 +290,7 @@ def run(run: C.Run):
         "the Coq pipeline model; all compositions of the axis for n<=5 (quick) / 7 (thorough) x method {None,map-reduce,cohorts,"
         "blockwise} x reindex {None,True,False}, plus random cases n<=12, <=4 groups, missing labels, numpy/dask labels, "
         "engines numpy/flox/auto, expected exact/superset/subset/absent, split_every 2/3/default; refusals (ValueError/"
-        "NotImplementedError) are counted, not compared; plus large cases (600-2500 elements, 280-800 groups, 12-40 blocks) vs eager and NumPy only; non-trivial: >=2 blocks, a group in >=2 blocks and a block lacking a group")
+        "NotImplementedError) are counted, not compared; plus value arrays with a leading batch axis and 1-3-D labels over many blocks / 3-D block grids (block-alternating, product and random label patterns, split_every 2/3/default) under every method vs in-memory and NumPy; plus large cases (600-2500 elements, 280-800 groups, 12-40 blocks) vs eager and NumPy only; non-trivial: >=2 blocks, a group in >=2 blocks and a block lacking a group")
 
 
 def replay(run: C.Run, path):
